@@ -18,7 +18,7 @@ import vlib
 
 LEVEL = "model_checking"
 PKG = "chain"
-FILES = ["verif_harness_test.go", "verif_exec_test.go", "verif_authbatch_test.go"]
+FILES = ["verif_harness_test.go", "verif_exec_test.go", "verif_authbatch_test.go", "verif_authsched_test.go"]
 
 
 def sig(f):
@@ -29,6 +29,10 @@ def sig(f):
 
 def describe(f):
     ev = f.get("event") or {}
+    if len(ev.get("kinds") or []) > 200:
+        return "diag=%s cfg=%s ntxs=%d invalid_positions=%s delivered=%s out=%s" % (
+            f.get("diag"), json.dumps(ev.get("cfg")), len(ev["kinds"]), [i + 1 for i, v in enumerate(ev["valid"]) if not v],
+            ev.get("delivered"), json.dumps(ev.get("out"))[:200])
     bad = [i + 1 for i, v in enumerate(ev.get("valid") or []) if not v]
     return "diag=%s cfg=%s ntxs=%s kinds=%s invalid_positions=%s how=%s out=%s" % (
         f.get("diag"), json.dumps(ev.get("cfg")), len(ev.get("kinds") or []), "".join(k[0] for k in ev.get("kinds") or []),
@@ -45,12 +49,17 @@ def run(ctx):
                                   label="design", timeout=3000, workers=ctx.pick(4, 8)))
             if not ctx.quick:
                 futs.append(ex.submit(vlib.tlc_mc, ctx, "AuthBatch_MC", "AuthBatch_MC_live.cfg", label="liveness", workers=2))
-        drv = ex.submit(vlib.go_driver, ctx, PKG, "^TestVerifAuthBatch$", files=FILES, timeout=1500,
-                        env={"VERIF_SCENARIOS": n, "VERIF_BIG": 0 if ctx.quick else 1})
+        drv = ex.submit(vlib.go_driver, ctx, PKG, "^TestVerifAuthBatch(|Large|Concurrent)$", files=FILES, timeout=2400,
+                        env={"VERIF_SCENARIOS": n, "VERIF_BIG": 0 if ctx.quick else 1, "VERIF_LARGE": ctx.pick(1, 8),
+                             "VERIF_LARGE_REF": ctx.pick(0, 1), "VERIF_CONCURRENT": ctx.pick(8, 80)})
         for f in futs:
             f.result()
         rc, out = drv.result()
     if ctx.only is None and not ctx.quick:
+        r = vlib.tlc_mc(ctx, "AuthBatch_MC", "AuthBatch_MC_nonblocking.cfg", label="nonblocking", expect_violation=True)
+        ctx.cov["design_step_detects_nonblocking_add"] = bool(r["violated"])
+        if not r["violated"]:
+            raise vlib.Infra("sensitivity: the model whose Add does not block on a full item channel no longer violates an invariant")
         r = vlib.tlc_mc(ctx, "AuthBatch_MC", "AuthBatch_MC_noflush.cfg", label="noflush", expect_violation=True)
         ctx.cov["design_step_detects_dropped_remainder_batch"] = bool(r["violated"])
         if not r["violated"]:
@@ -66,21 +75,34 @@ def run(ctx):
                                         "output_tail": out[-3000:]}, name="panic.json")
             raise vlib.Violation("block verification panicked: " + pn, replay=rp, signature="panic")
         raise vlib.Infra("auth batch recorder failed:\n" + out[-3000:])
-    files = vlib.scenario_files(ctx, "sc")
-    if not files or (ctx.only is None and len(files) < n):
+    files = vlib.scenario_files(ctx, "")
+    if not files or (ctx.only is None and len([f for f in files if os.path.basename(f).startswith("sc")]) < n):
         raise vlib.Infra("recorder wrote %d of %d scenarios" % (len(files), n))
     # ---- measured coverage (labels / evidence only)
     shapes = set()
     workers_seen, ed_counts = set(), set()
     feats = {"blocks_with_invalid": 0, "blocks_all_valid": 0, "mixed_auth_types": 0, "invalid_in_last_partial_batch": 0,
              "count_multiple_of_batch": 0, "decorated_runs": 0, "decorated_ok_runs_every_signature_ran": 0,
-             "decorated_ok_runs_missing_signature": 0, "batched_runs": 0, "rejected_runs": 0}
+             "decorated_ok_runs_missing_signature": 0, "batched_runs": 0, "rejected_runs": 0,
+             "large_gated_runs": 0, "large_gated_runs_prefix_on_batch_boundary": 0, "concurrent_block_pairs": 0,
+             "concurrent_invalid_block_runs": 0}
     nlines = 0
     sample = None
     for f in files:
         for l in vlib.read_ndjson(f)[1:]:
+            if l["ev"] != "block":
+                continue
             nlines += 1
             kinds, valid, cfg = l["kinds"], l["valid"], l["cfg"]
+            if cfg.get("gated"):
+                feats["large_gated_runs"] += 1
+                # 1 item held by the parked batch worker + a full backlog of 16384 = a multiple of the batch size, < count
+                bs0 = max(len(kinds) // cfg["workers"], 4)
+                if len(kinds) > 16385 and 16385 % bs0 == 0:
+                    feats["large_gated_runs_prefix_on_batch_boundary"] += 1
+            if cfg.get("concurrent"):
+                feats["concurrent_block_pairs"] += 0 if all(valid) else 1
+                feats["concurrent_invalid_block_runs"] += 0 if all(valid) else 1
             ned = kinds.count("ed25519")
             workers_seen.add(cfg["workers"])
             if cfg["batch"]:
@@ -128,6 +150,8 @@ def run(ctx):
             raise vlib.Infra("vacuity: %s" % feats)
         if not feats["invalid_in_last_partial_batch"] or not feats["count_multiple_of_batch"]:
             raise vlib.Infra("vacuity: no invalid signature in a last partial batch / no count that is a multiple of the batch size")
+        if not feats["large_gated_runs_prefix_on_batch_boundary"] or not feats["concurrent_block_pairs"]:
+            raise vlib.Infra("vacuity: no large gated block / no concurrent block pair recorded: %s" % feats)
     fails = vlib.validate_scenarios(ctx, "AuthBatch_Trace", "AuthBatch_Trace.cfg", files, label="tv", signature_fn=sig)
     for f in files:
         os.remove(f)
@@ -136,7 +160,12 @@ def run(ctx):
                        "transactions at shuffled positions (every fifth block ed25519 only), 0 / 1 / 2-3 invalid signatures placed on "
                        "first, last, 4th/5th/8th/9th/last/second-to-last ed25519 position, first non-ed25519 position or random; each block "
                        "executed 5 times: serial one-by-one (reference), 2x parallel with batch engine (one decorated), parallel without "
-                       "engine, parallel {1,2,3,4,16} with engine; worker counts cycle through 1..16. distinct_nontrivial = distinct "
+                       "engine, parallel {1,2,3,4,16} with engine; worker counts cycle through 1..16. Large family: blocks of 16384+k "
+                       "ed25519 signatures (k = 3 quick; thorough 8 shapes incl. invalid signatures at 0 / 3277 / in the tail) with the "
+                       "batch worker parked on its first item for 600 ms so that the producer meets the full 16384 backlog, 5 workers "
+                       "=> batch 3277 and 1+16384 = 5x3277. Concurrent family: a block whose first (one-by-one) signature is invalid and "
+                       "whose second is held open, and a valid block, executed at once by one Processor on one shared pool (2-16 "
+                       "workers), the second block's job created after the first block's failure was recorded. distinct_nontrivial = distinct "
                        "(kind sequence, validity vector) with at least one invalid signature; evaluations = Execute calls validated")
     ctx.assumptions += ["the scripted no-op action stands in for VM actions; blocks are otherwise valid (funded sponsors, correct root), "
                         "so the only possible reason for rejection is a signature",
